@@ -27,6 +27,7 @@ struct Obs {
     gate_cv: Condvar,
     connect_gate: AtomicBool, // connect hook parks until the gate opens
     connect_panic: AtomicBool,
+    late_alias: AtomicU64, // 0 = alias() not reached, 1 = returned false, 2 = returned true
 }
 impl Obs {
     fn open(&self) {
@@ -42,8 +43,21 @@ impl Obs {
     }
 }
 
+/// an alias key whose conversion to a string returns only after the connection's disconnect hooks have run:
+/// an alias() issued by a handler while its connection goes away must not outlive the peer
+struct SlowKey(Arc<Obs>);
+impl From<SlowKey> for String {
+    fn from(k: SlowKey) -> String {
+        let t0 = Instant::now();
+        while k.0.disconnects.load(Ordering::SeqCst) == 0 && t0.elapsed() < Duration::from_secs(3) { std::thread::sleep(Duration::from_millis(1)); }
+        std::thread::sleep(Duration::from_millis(5));
+        "late-alias".to_string()
+    }
+}
+
 fn build_server(obs: &Arc<Obs>, reg: &PeerRegistry) -> WebSocketServer {
     let (o1, o2, o3, o4) = (obs.clone(), obs.clone(), obs.clone(), obs.clone());
+    let (o5, reg5) = (obs.clone(), reg.clone());
     let router = Router::new()
         .with_json("/echo", |v| Ok(v))
         .with_json("/big", |_v| Ok(json!({"pad": "y".repeat(1 << 20)})))
@@ -57,6 +71,14 @@ fn build_server(obs: &Arc<Obs>, reg: &PeerRegistry) -> WebSocketServer {
                 std::thread::sleep(Duration::from_millis(5));
             }
             o2.off_finished.store(true, Ordering::SeqCst);
+            Ok(json!({}))
+        })
+        .with_json_ctx_blocking("/off_alias", move |ctx, _v| {
+            // aliases its own peer while the connection is going away (the key conversion spans the disconnect)
+            o5.off_started.store(true, Ordering::SeqCst);
+            if let Some(p) = ctx.peer() { let r = reg5.alias(p.peer_id(), SlowKey(o5.clone())); o5.late_alias.store(if r { 2 } else { 1 }, Ordering::SeqCst); }
+            if ctx.is_cancelled() { o5.off_saw_cancel.store(true, Ordering::SeqCst); }
+            o5.off_finished.store(true, Ordering::SeqCst);
             Ok(json!({}))
         })
         .with_json_blocking("/off_stubborn", move |_v| {
@@ -104,6 +126,12 @@ where S: tokio::io::AsyncRead + tokio::io::AsyncWrite + Unpin {
             let _ = ws.send(WsMsg::Binary(req(3, if cause == "drain_abort" { "/off_stubborn" } else { "/off_park" }, json!(3)).into())).await;
             let t0 = Instant::now();
             while !obs.off_started.load(Ordering::SeqCst) && t0.elapsed() < Duration::from_secs(3) { tokio::time::sleep(Duration::from_millis(2)).await; }
+        }
+        "off_aliasing" => {
+            let _ = ws.send(WsMsg::Binary(req(4, "/off_alias", json!(4)).into())).await;
+            let t0 = Instant::now();
+            while !obs.off_started.load(Ordering::SeqCst) && t0.elapsed() < Duration::from_secs(3) { tokio::time::sleep(Duration::from_millis(2)).await; }
+            tokio::time::sleep(Duration::from_millis(10)).await;
         }
         "outbound_nonempty" => { for i in 0..24 { let _ = ws.send(WsMsg::Binary(req(100 + i, "/big", json!(0)).into())).await; } tokio::time::sleep(Duration::from_millis(30)).await; }
         _ => {}
@@ -157,6 +185,9 @@ pub fn run(a: &Args) -> i32 {
             for p in ["idle", "off_parked"] { scenarios.push((e.to_string(), "cancel".into(), p.into(), 1)); }
         }
         if *e == "drain" { scenarios.push((e.to_string(), "drain_abort".into(), "off_parked".into(), 1)); }
+    }
+    for e in ["listener", "serve_connection", "adopt"] {
+        for c in ["socket_loss", "clean_close"] { scenarios.push((e.to_string(), c.to_string(), "off_aliasing".to_string(), 1)); }
     }
     for n in [4usize, a.usize("max-conns", 8)] {
         scenarios.push(("listener".into(), "socket_loss".into(), "idle".into(), n));
@@ -280,7 +311,9 @@ pub fn run(a: &Args) -> i32 {
         out.push(&json!({"ev": "life", "entry": entry, "cause": cause, "phase": phase, "conns": nconn, "handshake_ok": handshake_ok,
             "connects": ob.connects.load(Ordering::SeqCst), "disconnects": ob.disconnects.load(Ordering::SeqCst),
             "disconnect_before_connect": ob.disconnect_before_connect.load(Ordering::SeqCst),
-            "present_during": present_during, "present_after": !reg.is_empty(), "alias_after": (0..64u64).any(|p| reg.get_by(format!("alias-{p}").as_str()).is_some()),
+            "present_during": present_during, "present_after": !reg.is_empty(), "alias_after": (0..64u64).any(|p| reg.get_by(format!("alias-{p}").as_str()).is_some()) || reg.get_by("late-alias").is_some()
+                || (0..64u64).any(|p| !reg.aliases_for(repe::PeerId(p)).is_empty() || reg.key_for(repe::PeerId(p)).is_some()),
+            "late_alias": ob.late_alias.load(Ordering::SeqCst),
             "hello_first": hello_first && !hello_after_response,
             "off_started": ob.off_started.load(Ordering::SeqCst), "off_saw_cancel": ob.off_saw_cancel.load(Ordering::SeqCst), "stubborn": cause == "drain_abort"}));
         server_task.abort();
